@@ -22,7 +22,8 @@ the position in list order, later wins) judges the outcome:
 
 History dimension ("the result of a wrap does not depend on what was wrapped before"):
 every shard runs in a newly forked worker (FRESH_WORKERS) and the wraps of one input are
-executed as an ordered sequence in that process (run_group). Order A per width =
+executed as an ordered sequence in that process (run_group), all on ONE Text instance (a table renders
+the same cell object again and again; Text.wrap must not keep anything on the instance). Order A per width =
 [fold wraps] [other (overflow, no_wrap) modes] [fold again]; order B = [other modes]
 [fold wraps] [first other mode again]; part (a) and levels L0/L1 run in both orders in
 separate processes. Every wrap is judged by the oracle wherever it stands, and a repeated
@@ -404,17 +405,23 @@ def _crash_key(exc):
     return "crash/%s/%s" % (type(exc).__name__, where)
 
 
-def execute(case):
-    """Runs one case on the real code -> (out lines as [(char, RefStyle|None)], None) or (None, exc)."""
+def execute(case, shared=None):
+    """Runs one case on the real code -> (out lines as [(char, RefStyle|None)], None) or (None, exc).
+    shared: a dict that holds the ONE Text object of a history (all wraps of a group are made on the same
+    instance, as a table does with a cell it renders twice); None = a fresh Text for this wrap."""
     from rich.text import Text, Span
     con = _console()
     styled = case.get("styled")
     try:
-        if styled:
+        if shared is not None and "t" in shared:
+            t = shared["t"]
+        elif styled:
             t = Text(case["s"], style=STYLE_DEFS["base"] if case.get("base") else "",
                      spans=[Span(a, e, STYLE_DEFS[n]) for a, e, n in case.get("spans", [])])
         else:
             t = Text(case["s"])
+        if shared is not None:
+            shared["t"] = t
         lines = t.wrap(con, case["W"], justify=dyn(case["justify"]), overflow=dyn(case["overflow"]),
                        tab_size=case.get("tab", 8), no_wrap=case["no_wrap"])
         out = []
@@ -450,9 +457,9 @@ def _mode(cfg):
     return cfg[2] + ("+no_wrap" if cfg[3] and cfg[2] != "ignore" else "")
 
 
-def _observe(common, cfg):
+def _observe(common, cfg, shared=None):
     case = _flat(common, cfg)
-    out, exc = execute(case)
+    out, exc = execute(case, shared)
     return case, out, exc, (("exc", type(exc).__name__) if exc is not None else out)
 
 
@@ -476,11 +483,12 @@ def run_group(common, blocks, res):
     (finish() re-runs the single case in a fresh process and drops the prefix if it fails there too)."""
     hist = []
     first = {}
+    shared = {}          # one Text instance for the whole history
     part, level = common["part"], common.get("level", 0)
     for bi, cfgs in enumerate(blocks):
         fresh = bi == 0
         for cfg in cfgs:
-            case, out, exc, obs = _observe(common, cfg)
+            case, out, exc, obs = _observe(common, cfg, shared)
             res.evaluations += 1
             hist.append(cfg)
             seen_before = cfg in first
@@ -525,11 +533,12 @@ def check_history(case, res):
     common = {k: v for k, v in case.items() if k != "hist"}
     hist = [tuple(h) for h in case["hist"]]
     first = {}
+    shared = {}
     for cfg in hist[:-1]:
-        _, _, _, obs = _observe(common, cfg)
+        _, _, _, obs = _observe(common, cfg, shared)
         first.setdefault(cfg, obs)
     cfg = hist[-1]
-    flat, out, exc, obs = _observe(common, cfg)
+    flat, out, exc, obs = _observe(common, cfg, shared)
     res.evaluations += 1
     if exc is not None:
         res.violate("history/" + _crash_key(exc), case, "%s: %s" % (type(exc).__name__, exc))
